@@ -114,6 +114,17 @@ pub broadcast axiom fn axiom_display_str(x: &str) ensures #[trigger] display::<&
 pub broadcast axiom fn axiom_display_string(x: String) ensures #[trigger] display::<String>(x) == x@;
 
 
+
+// TRUSTED: str::replace (alloc::str): "Replaces all matches of a pattern with another string"; for a char pattern every occurrence of that
+// char is replaced.  `str_replace_spec` names the result; the only instantiation used is stated by the axiom below.
+pub uninterp spec fn str_replace_spec<P>(s: Seq<char>, from: P, to: Seq<char>) -> Seq<char>;
+pub assume_specification<P: core::str::pattern::Pattern>[ str::replace::<P> ](s: &str, from: P, to: &str) -> (r: String)
+    ensures r@ == str_replace_spec(s@, from, to@);
+pub broadcast axiom fn axiom_replace_quote(s: Seq<char>, to: Seq<char>)
+    ensures to == seq!['"', '"'] ==> #[trigger] str_replace_spec::<char>(s, '"', to) == dq(s);
+// rule R4: `format!(..)` of an error message becomes an opaque string
+#[verifier::external_body] fn verif_opaque_string() -> String { String::new() }
+
 // ---- A-enc: UTF-16LE decoding (encoding_rs), as in unit xlsbrec
 // TRUSTED: A-enc -- `dec16` stands for encoding_rs' UTF-16LE decoder proper; `dec_sniffed` for the result of BOM sniffing
 // (`Encoding::decode` removes a leading BOM and decodes in the BOM's encoding); both uninterpreted functions of the bytes
@@ -699,6 +710,8 @@ verus! {
 //@@ fn src/xlsb/mod.rs parse_formula props=C14 entry ret=res r13 mutparams
 //@@ sig
     decreases __p_rgce@.len(),
+//@@ closure 0
+    -> (o: Option<&(String, String)>) ensures o == (if i < names@.len() { Some(&names@[i as int]) } else { None::<&(String, String)> })
 //@@ body
     broadcast use axiom_display_u16, axiom_display_u32, axiom_display_u64, axiom_replace_quote;
     let ghost ctx = mk_ctx(sheets@, names@);
@@ -794,7 +807,7 @@ verus! {
 //@@ before /formula\.push_str\(op\);/
                 //# C14.xlsb_binary_operator_text
                 assert(xlsb_binary_operator_text(true, op@, binop(ptg as int)));
-//@@ before /\}\s*0x3b \| 0x5b \| 0x7b => \{/
+//@@ before /\}\n {12}0x3b \| 0x5b \| 0x7b => \{/
                 proof {
                     assert(stack@ =~= st_in.push(blen(f_in) as usize));
                     let sh = sheets@[ixti as int]@;
@@ -806,7 +819,7 @@ verus! {
                     //# C14.xlsb_ptgref3d_text
                     assert(xlsb_ptgref3d_text(le16(d_in) < ctx.sheets.len() && xb_row_ok(le32(d_in.skip(2))), formula@, f_in + (ctx.sheets[le16(d_in)] + seq!['!'] + xb_cell(d_in.skip(2)))));
                 }
-//@@ before /\}\s*0x3c \| 0x5c \| 0x7c => \{/
+//@@ before /\}\n {12}0x3c \| 0x5c \| 0x7c => \{/
                 proof {
                     assert(stack@ =~= st_in.push(blen(f_in) as usize));
                     let sh = sheets@[ixti as int]@;
@@ -818,7 +831,7 @@ verus! {
                     //# C14.xlsb_ptgarea3d_text
                     assert(xlsb_ptgarea3d_text(le16(d_in) < ctx.sheets.len() && xb_row_ok(le32(d_in.skip(2))) && xb_row_ok(le32(d_in.skip(6))), formula@, f_in + (ctx.sheets[le16(d_in)] + seq!['!'] + xb_area(d_in.skip(2)))));
                 }
-//@@ before /\}\s*0x3d \| 0x5d \| 0x7d => \{/
+//@@ before /\}\n {12}0x3d \| 0x5d \| 0x7d => \{/
                 proof {
                     assert(stack@ =~= st_in.push(blen(f_in) as usize));
                     let t = formula@.skip(f_in.len() as int);
@@ -828,7 +841,7 @@ verus! {
                     //# C14.xlsb_ptgreferr3d_text
                     assert(xlsb_ptgreferr3d_text(le16(d_in) < ctx.sheets.len(), formula@, f_in + (ctx.sheets[le16(d_in)] + seq!['!'] + "#REF!"@)));
                 }
-//@@ before /\}\s*0x01 => \{/
+//@@ before /\}\n {12}0x01 => \{/
                 proof {
                     assert(stack@ =~= st_in.push(blen(f_in) as usize));
                     let t = formula@.skip(f_in.len() as int);
@@ -838,7 +851,7 @@ verus! {
                     //# C14.xlsb_ptgareaerr3d_text
                     assert(xlsb_ptgareaerr3d_text(le16(d_in) < ctx.sheets.len(), formula@, f_in + (ctx.sheets[le16(d_in)] + seq!['!'] + "#REF!"@)));
                 }
-//@@ before /\}\s*0x03\.\.=0x11 => \{/
+//@@ before /\}\n {12}0x03\.\.=0x11 => \{/
                 proof {
                     assert(stack@ =~= st_in.push(blen(f_in) as usize));
                     let t = formula@.skip(f_in.len() as int);
@@ -846,7 +859,7 @@ verus! {
                     lemma_S_push(f_in, st_in, t);
                     assert(rgce@ =~= rg_in.skip(5));
                 }
-//@@ before /\}\s*0x12 => \{/
+//@@ before /\}\n {12}0x12 => \{/
                 proof {
                     assert(stack@ =~= st_in.drop_last());
                     assert(formula@.take(kl) =~= f_in.take(kl));
@@ -854,7 +867,7 @@ verus! {
                     assert(rgce@ =~= rg_in.skip(1));
                     assert(formula@ =~= f_in.take(kl) + op@ + f_in.skip(kl));
                 }
-//@@ before /\}\s*0x13 => \{/
+//@@ before /\}\n {12}0x13 => \{/
                 proof {
                     assert(stack@ =~= st_in);
                     assert(formula@.take(kl) =~= f_in.take(kl));
@@ -863,7 +876,7 @@ verus! {
                     //# C14.xlsb_unary_plus_text
                     assert(xlsb_unary_plus_text(true, formula@, f_in.take(kl) + seq!['+'] + f_in.skip(kl)));
                 }
-//@@ before /\}\s*0x14 => \{/
+//@@ before /\}\n {12}0x14 => \{/
                 proof {
                     assert(stack@ =~= st_in);
                     assert(formula@.take(kl) =~= f_in.take(kl));
@@ -872,14 +885,14 @@ verus! {
                     //# C14.xlsb_unary_minus_text
                     assert(xlsb_unary_minus_text(true, formula@, f_in.take(kl) + seq!['-'] + f_in.skip(kl)));
                 }
-//@@ before /\}\s*0x15 => \{/
+//@@ before /\}\n {12}0x15 => \{/
                 proof {
                     assert(stack@ =~= st_in);
                     assert(formula@ =~= f_in + seq!['%']);
                     lemma_S_grow(f_in, st_in, seq!['%']);
                     assert(rgce@ =~= rg_in.skip(1));
                 }
-//@@ before /\}\s*0x16 => \{/
+//@@ before /\}\n {12}0x16 => \{/
                 proof {
                     assert(stack@ =~= st_in);
                     assert(formula@.take(kl) =~= f_in.take(kl));
@@ -888,7 +901,7 @@ verus! {
                     //# C14.xlsb_paren_text
                     assert(xlsb_paren_text(true, formula@, f_in.take(kl) + seq!['('] + f_in.skip(kl) + seq![')']));
                 }
-//@@ before /\}\s*0x17 => \{/
+//@@ before /\}\n {12}0x17 => \{/
                 proof {
                     assert(stack@ =~= st_in.push(blen(f_in) as usize));
                     let t = formula@.skip(f_in.len() as int);
@@ -898,7 +911,7 @@ verus! {
                     //# C14.xlsb_ptgmissarg_text
                     assert(xlsb_ptgmissarg_text(true, formula@, f_in + (Seq::<char>::empty())));
                 }
-//@@ before /\}\s*0x18 => \{/
+//@@ before /\}\n {12}0x18 => \{/
                 proof {
                     assert(stack@ =~= st_in.push(blen(f_in) as usize));
                     let t = formula@.skip(f_in.len() as int);
@@ -909,14 +922,14 @@ verus! {
                     //# C14.xlsb_ptgstr_text
                     assert(xlsb_ptgstr_text(!has_bom(by), formula@, f_in + quoted(dec16(by))));
                 }
-//@@ before /\}\s*0x19 => \{/
+//@@ before /\}\n {12}0x19 => \{/
                 proof {
                     assert(stack@ =~= st_in.push(blen(f_in) as usize));
                     let t = formula@.skip(f_in.len() as int);
                     assert(formula@ =~= f_in + t);
                     lemma_S_push(f_in, st_in, t);
                 }
-//@@ before /\}\s*0x1C => \{/
+//@@ before /\}\n {12}0x1C => \{/
                 proof {
                     assert(stack@ =~= st_in);
                     if eptg == 0x10 {
@@ -930,7 +943,7 @@ verus! {
                         lemma_S_grow(f_in, st_in, Seq::<char>::empty());
                     }
                 }
-//@@ before /\}\s*0x1D => \{/
+//@@ before /\}\n {12}0x1D => \{/
                 proof {
                     assert(stack@ =~= st_in.push(blen(f_in) as usize));
                     let t = formula@.skip(f_in.len() as int);
@@ -940,7 +953,7 @@ verus! {
                     //# C14.xlsb_ptgerr_text
                     assert(xlsb_ptgerr_text(err_text(d_in[0] as int) is Some, formula@, f_in + (err_text(d_in[0] as int)->Some_0)));
                 }
-//@@ before /\}\s*0x1E => \{/
+//@@ before /\}\n {12}0x1E => \{/
                 proof {
                     assert(stack@ =~= st_in.push(blen(f_in) as usize));
                     let t = formula@.skip(f_in.len() as int);
@@ -950,7 +963,7 @@ verus! {
                     //# C14.xlsb_ptgbool_text
                     assert(xlsb_ptgbool_text(d_in[0] <= 1, formula@, f_in + ((if d_in[0] == 0 { "FALSE"@ } else { "TRUE"@ }))));
                 }
-//@@ before /\}\s*0x1F => \{/
+//@@ before /\}\n {12}0x1F => \{/
                 proof {
                     assert(stack@ =~= st_in.push(blen(f_in) as usize));
                     let t = formula@.skip(f_in.len() as int);
@@ -960,7 +973,7 @@ verus! {
                     //# C14.xlsb_ptgint_text
                     assert(xlsb_ptgint_text(true, formula@, f_in + (dec(le16(d_in) as nat))));
                 }
-//@@ before /\}\s*0x20 \| 0x40 \| 0x60 => \{/
+//@@ before /\}\n {12}0x20 \| 0x40 \| 0x60 => \{/
                 proof {
                     assert(stack@ =~= st_in.push(blen(f_in) as usize));
                     let t = formula@.skip(f_in.len() as int);
@@ -970,7 +983,7 @@ verus! {
                     //# C14.xlsb_ptgnum_text
                     assert(xlsb_ptgnum_text(true, formula@, f_in + (display::<f64>(f64_of_bits(le64(d_in))))));
                 }
-//@@ before /\}\s*0x21 \| 0x22 \| 0x41 \| 0x42 \| 0x61 \| 0x62 => \{/
+//@@ before /\}\n {12}0x21 \| 0x22 \| 0x41 \| 0x42 \| 0x61 \| 0x62 => \{/
                 proof {
                     assert(stack@ =~= st_in.push(blen(f_in) as usize));
                     let t = formula@.skip(f_in.len() as int);
@@ -978,9 +991,9 @@ verus! {
                     lemma_S_push(f_in, st_in, t);
                     assert(rgce@ =~= rg_in.skip(15));
                 }
-//@@ before /\}\s*0x23 \| 0x43 \| 0x63 => \{/
+//@@ before /\}\n {12}0x23 \| 0x43 \| 0x63 => \{/
                 proof { }
-//@@ before /\}\s*0x24 \| 0x44 \| 0x64 => \{/
+//@@ before /\}\n {12}0x24 \| 0x44 \| 0x64 => \{/
                 proof {
                     assert(stack@ =~= st_in.push(blen(f_in) as usize));
                     let t = formula@.skip(f_in.len() as int);
@@ -990,7 +1003,7 @@ verus! {
                     //# C14.xlsb_ptgname_text
                     assert(xlsb_ptgname_text(1 <= le32(d_in) <= ctx.names.len(), formula@, f_in + (ctx.names[le32(d_in) - 1])));
                 }
-//@@ before /\}\s*0x25 \| 0x45 \| 0x65 => \{/
+//@@ before /\}\n {12}0x25 \| 0x45 \| 0x65 => \{/
                 proof {
                     assert(stack@ =~= st_in.push(blen(f_in) as usize));
                     let got = dollar(d_in[5] & 0x40 != 0x40) + col_name(col as int) + dollar(d_in[5] & 0x80 != 0x80) + dec(row as nat);
@@ -1001,7 +1014,7 @@ verus! {
                     //# C14.xlsb_ptgref_text
                     assert(xlsb_ptgref_text(xb_row_ok(le32(d_in)), formula@, f_in + xb_cell(d_in)));
                 }
-//@@ before /\}\s*0x2A \| 0x4A \| 0x6A => \{/
+//@@ before /\}\n {12}0x2A \| 0x4A \| 0x6A => \{/
                 proof {
                     assert(stack@ =~= st_in.push(blen(f_in) as usize));
                     let got = code_cell(le16(d_in.subrange(8, 10)) as u16, le32(d_in.subrange(0, 4))) + seq![':'] + code_cell(le16(d_in.subrange(10, 12)) as u16, le32(d_in.subrange(4, 8)));
@@ -1012,7 +1025,7 @@ verus! {
                     //# C14.xlsb_ptgarea_text
                     assert(xlsb_ptgarea_text(xb_row_ok(le32(d_in)) && xb_row_ok(le32(d_in.skip(4))), formula@, f_in + xb_area(d_in)));
                 }
-//@@ before /\}\s*0x2B \| 0x4B \| 0x6B => \{/
+//@@ before /\}\n {12}0x2B \| 0x4B \| 0x6B => \{/
                 proof {
                     assert(stack@ =~= st_in.push(blen(f_in) as usize));
                     let t = formula@.skip(f_in.len() as int);
@@ -1022,7 +1035,7 @@ verus! {
                     //# C14.xlsb_ptgreferr_text
                     assert(xlsb_ptgreferr_text(true, formula@, f_in + ("#REF!"@)));
                 }
-//@@ before /\}\s*0x29 \| 0x49 \| 0x69 => \{/
+//@@ before /\}\n {12}0x29 \| 0x49 \| 0x69 => \{/
                 proof {
                     assert(stack@ =~= st_in.push(blen(f_in) as usize));
                     let t = formula@.skip(f_in.len() as int);
@@ -1032,7 +1045,7 @@ verus! {
                     //# C14.xlsb_ptgareaerr_text
                     assert(xlsb_ptgareaerr_text(true, formula@, f_in + ("#REF!"@)));
                 }
-//@@ before /\}\s*0x39 \| 0x59 \| 0x79 => \{/
+//@@ before /\}\n {12}0x39 \| 0x59 \| 0x79 => \{/
                 proof {
                     assert(stack@ =~= st_in.push(blen(f_in) as usize));
                     let t = formula@.skip(f_in.len() as int);
@@ -1040,7 +1053,7 @@ verus! {
                     lemma_S_push(f_in, st_in, t);
                     assert(rgce@ =~= rg_in.skip(3 + le16(d_in)));
                 }
-//@@ before /\}\s*_ => return Err\(XlsbError::Ptg\(ptg\)\)/
+//@@ before /\}\n {12}_ => return Err\(XlsbError::Ptg\(ptg\)\)/
                 proof {
                     assert(stack@ =~= st_in.push(blen(f_in) as usize));
                     let t = formula@.skip(f_in.len() as int);
